@@ -441,6 +441,13 @@ func (w *World) onCommit(op *vos.Op) {
 	for _, n := range prevNames {
 		if !inNew[n] {
 			p := filepath.Join(w.Dir, n)
+			// M-lock: a table leaves the list only through a compaction, and a
+			// compaction has to hold that table's lock: a commit that drops a table
+			// while another live process holds its compaction lock means two
+			// compactions rewrite the same table
+			if li := w.locks[p+".lock"]; li != nil && li.owner != op.Proc && !w.Crashed[li.owner] {
+				w.violate([]string{"C08"}, "table-compacted-under-foreign-lock", "%s: the new tables.list drops %s although p%d holds %s.lock (two compactions rewrite the same table)", op.String(), n, li.owner, n)
+			}
 			if _, err := os.Lstat(p); err == nil {
 				w.owned[p] = op.Proc
 			}
